@@ -19,6 +19,8 @@ def std_detect_cache(mode='initialised'):
         o = ex.new_obj(24, 8, 'std_detect::CACHE', 'global', True)
         if mode == 'cold':
             ex.write_bits(o, 0, T.const(0, 64))
+        elif isinstance(mode, int):
+            ex.write_bits(o, 0, T.const(mode | (1 << 63), 64))     # a concrete feature set (single arm)
         else:
             ex.write_bits(o, 0, T.concat([T.var('cpu', 63), T.const(1, 1)]))
         ex.write_bits(o, 8, T.const(1 << 63, 64))
